@@ -545,6 +545,109 @@ pub fn decode_streaming<B: Buffer>(
     DecodeIterator::new(iter.into_iter().map(|x| *x.borrow()))
 }
 
+#[cfg(feature = "verif-hooks")]
+#[allow(missing_docs)]
+/// Verification hooks (feature `verif-hooks`): plain mirror of the decoder's private state.
+pub mod verif {
+    use super::*;
+
+    #[derive(Clone, Copy, Debug, PartialEq, Eq)]
+    pub struct DecoderState {
+        /// 0 = LookingForMessageStart, 1 = ParsingNormal, 2 = ParsingEscChars, 3 = ParsingEscPayload, 4 = Done
+        pub tag: u8,
+        pub num_discarded_bytes: u64,
+        pub num_init_seq_bytes: u8,
+        pub esc_chars: u8,
+        pub step: u8,
+        pub payload: [u8; 4],
+        pub raw_msg_len: usize,
+        pub zero_cache: u8,
+        /// value `finalize()` would return for the running digest
+        pub crc: u16,
+    }
+
+    impl<B: Buffer> Decoder<B> {
+        pub fn verif_state(&self) -> DecoderState {
+            let mut st = DecoderState {
+                tag: 0,
+                num_discarded_bytes: 0,
+                num_init_seq_bytes: 0,
+                esc_chars: 0,
+                step: 0,
+                payload: [0; 4],
+                raw_msg_len: self.decoder.raw_msg_len,
+                zero_cache: self.decoder.zero_cache,
+                crc: self.decoder.crc.clone().finalize(),
+            };
+            match self.decoder.state {
+                DecodeState::LookingForMessageStart {
+                    num_discarded_bytes,
+                    num_init_seq_bytes,
+                } => {
+                    st.tag = 0;
+                    st.num_discarded_bytes = num_discarded_bytes as u64;
+                    st.num_init_seq_bytes = num_init_seq_bytes;
+                }
+                DecodeState::ParsingNormal => st.tag = 1,
+                DecodeState::ParsingEscChars(n) => {
+                    st.tag = 2;
+                    st.esc_chars = n;
+                }
+                DecodeState::ParsingEscPayload { step, payload } => {
+                    st.tag = 3;
+                    st.step = step;
+                    st.payload = payload;
+                }
+                DecodeState::Done => st.tag = 4,
+            }
+            st
+        }
+
+        pub fn verif_from_state(buf: B, st: &DecoderState) -> Self {
+            let state = match st.tag {
+                0 => DecodeState::LookingForMessageStart {
+                    num_discarded_bytes: st.num_discarded_bytes as _,
+                    num_init_seq_bytes: st.num_init_seq_bytes,
+                },
+                1 => DecodeState::ParsingNormal,
+                2 => DecodeState::ParsingEscChars(st.esc_chars),
+                3 => DecodeState::ParsingEscPayload {
+                    step: st.step,
+                    payload: st.payload,
+                },
+                _ => DecodeState::Done,
+            };
+            Decoder {
+                buf,
+                decoder: NonOwningDecoder {
+                    raw_msg_len: st.raw_msg_len,
+                    crc: CRC_X25.digest_with_initial((st.crc ^ 0xffff).reverse_bits()),
+                    state,
+                    zero_cache: st.zero_cache,
+                },
+            }
+        }
+
+        pub fn verif_buf(&self) -> &[u8] {
+            &self.buf[..]
+        }
+
+        /// width in bits of the noise counter (so that harnesses can state their bound)
+        pub fn verif_discard_counter_bits() -> u32 {
+            fn bits_of<T>(_: &T) -> u32 {
+                (core::mem::size_of::<T>() * 8) as u32
+            }
+            match NonOwningDecoder::new().state {
+                DecodeState::LookingForMessageStart {
+                    ref num_discarded_bytes,
+                    ..
+                } => bits_of(num_discarded_bytes),
+                _ => 0,
+            }
+        }
+    }
+}
+
 #[cfg(test)]
 mod decode_tests {
     use super::*;
